@@ -57,6 +57,9 @@ func (c Case) Line() string {
 	if (c.Family == "nest" || c.Family == "huge") && len(c.Input) > 4096 && !strings.Contains(c.Name, " ") {
 		return "c05x.gen " + head + " " + c.Family + ":" + c.Name
 	}
+	if c.Family == "growth" { // replayed as the whole ladder up to this parameter
+		return "c05x.gen " + head + " growth:" + c.Name
+	}
 	return "c05x.run " + head + " " + vh.X(c.Input)
 }
 
@@ -69,7 +72,7 @@ func generated(format, ref string) ([]byte, string, string, bool) {
 		return nil, "", "", false
 	}
 	switch fam {
-	case "nest":
+	case "nest", "growth":
 		for _, g := range nestGens[format] {
 			if g.Name == gen {
 				return g.F(n), fam, name, true
@@ -351,7 +354,7 @@ func main() {
 		return
 	}
 	seed := vh.SeedFromEnv()
-	rule := "search over decoders without a Lean model: W3C suite files shipped in the repository, test-file literals and round-0 witnesses x decoder options x read schedules; token-level mutations (<=3 edits from a per-format hot alphabet), grammar-directed nesting, huge tokens, truncations, injected reader faults. non-trivial = the run yielded at least one statement or ended in an error other than at the first token (C05/C06); the base document yields a statement (C15)"
+	rule := "search over decoders without a Lean model: W3C suite files shipped in the repository, test-file literals and round-0 witnesses x decoder options x read schedules; token-level mutations (<=3 edits from a per-format hot alphabet), grammar-directed nesting, huge tokens, truncations, injected reader faults (on a Read of their own or together with the last bytes; at every offset of the trailing trivia and at len(doc)); deterministic grammar-directed families: RDF/XML attribute x value x spelling x host element error paths with offsets on/off, RDFa/Microdata token-list attributes x separator characters, reference cliques (k mutually referencing items), documents starting with a multi-byte character under tiny first reads; growth oracle (allocation + statement counts over a parameter ladder, exponent <= 4) besides the watchdog. non-trivial = the run yielded at least one statement or ended in an error other than at the first token (C05/C06); the base document yields a statement (C15)"
 	rep := vh.NewReport(*prop, *tier, seed, rule)
 	fs, err := vh.LoadFindings(*findings)
 	if err != nil {
@@ -450,7 +453,20 @@ func (e *engine) replayFile(path string) {
 			if !ok {
 				continue
 			}
-			if propSelected("C15") {
+			if c.Family == "growth" {
+				gen, param, _ := strings.Cut(c.Name, "@")
+				top, _ := strconv.Atoi(param)
+				var ladder []int
+				if g, ok := findNestGen(c.Format, gen); ok {
+					for _, k := range growthLadder(g) {
+						if k <= top {
+							ladder = append(ladder, k)
+						}
+					}
+				}
+				c.Name = gen
+				emit(job{Kind: jobGrowth, C: c, Ladder: ladder, Verbose: true})
+			} else if propSelected("C15") {
 				emit(job{Kind: jobSchedule, C: c, Seed: e.rng.U64(), Thorough: e.thorough, Verbose: true})
 			} else {
 				emit(job{Kind: jobSingle, C: c, Verbose: true})
